@@ -16,7 +16,8 @@ PROP = {
                    "runtime turn per started operation plus four; outcome is a cancellation error or a genuine result (bytes are the "
                    "next bytes of a position-tagged stream); every other operation stays pending, never fails, and after a barrier "
                    "receives every byte sent (a cancelled/dropped operation that still consumes is seen as a gap). "
-                   "Thread-pool operations are excluded as documented (not interruptible); they are only checked to be unaffected."),
+                   "Thread-pool operations are excluded as documented (not interruptible); they are only checked to be unaffected."
+                   " Builds: the fusion build (both drivers in one binary) carries the bulk of the runs; the legs `iour-only` / `poll-only` repeat the workloads with compio-driver compiled for a single driver (io-uring only is the default build of compio), so the #[cfg(not(fusion))] glue is exercised too, at a smaller volume."),
     "technique": "runtime monitoring: bounded-progress + honesty oracle over seeded cancellation soups, event-log checker",
     "rule": SOUP_RULE + ("; C05 weighting: cancel/token actions dominate; non-trivial if a cancel hit a pending op. rt legs: a case is "
                          "one program; non-trivial if some route fired while its operation was pending; distinct = (driver, op kind, "
@@ -34,6 +35,24 @@ PROP = {
          "timeout_s": {"quick": 240, "thorough": 900}},
         {"name": "rt-asan", "build": "asan", "pkg": "vdrv", "cmd": "c05r", "shards": 4,
          "args": {"quick": ["--iters", 100, "--budget-ms", 45000], "thorough": ["--iters", 3000, "--budget-ms", 420000]},
+         "timeout_s": {"quick": 240, "thorough": 900}},
+        # single-driver configuration (the default build of compio): the #[cfg(not(fusion))] glue of compio-driver
+        {"name": "iour-only", "build": "plain-iour", "pkg": "vdrv", "cmd": "c05", "shards": 3,
+         "args": {"quick": [] + ["--driver", "iour", "--iters", 150, "--budget-ms", 40000],
+                  "thorough": [] + ["--driver", "iour", "--iters", 3000, "--budget-ms", 300000]},
+         "timeout_s": {"quick": 240, "thorough": 900}},
+        {"name": "rt-iour-only", "build": "plain-iour", "pkg": "vdrv", "cmd": "c05r", "shards": 2,
+         "args": {"quick": ["--driver", "iour", "--iters", 200, "--budget-ms", 40000],
+                  "thorough": ["--driver", "iour", "--iters", 6000, "--budget-ms", 300000]},
+         "timeout_s": {"quick": 240, "thorough": 900}},
+        # single-driver configuration (polling only): the #[cfg(not(fusion))] glue of compio-driver
+        {"name": "poll-only", "build": "plain-poll", "pkg": "vdrv", "cmd": "c05", "shards": 3,
+         "args": {"quick": [] + ["--driver", "poll", "--iters", 150, "--budget-ms", 40000],
+                  "thorough": [] + ["--driver", "poll", "--iters", 3000, "--budget-ms", 300000]},
+         "timeout_s": {"quick": 240, "thorough": 900}},
+        {"name": "rt-poll-only", "build": "plain-poll", "pkg": "vdrv", "cmd": "c05r", "shards": 2,
+         "args": {"quick": ["--driver", "poll", "--iters", 200, "--budget-ms", 40000],
+                  "thorough": ["--driver", "poll", "--iters", 6000, "--budget-ms", 300000]},
          "timeout_s": {"quick": 240, "thorough": 900}},
     ],
 }
